@@ -332,6 +332,43 @@ def newGraph (svcs : List Svc) (disabled : List String) : Except GErr (List Svc)
   | .error e => .error e
   | .ok (ss, adj) => if hasCycle adj then .error .cycle else .ok ss
 
+/-! ## `ApplyExtends` (same-file references): memoised recursive resolution -/
+
+/-- a service as `extends` sees it: the service it extends (same file), and its own attributes -/
+abbrev XSvc (β : Type) := Option String × β
+
+/-- `applyServiceExtends` (same-file references): resolve `name`, memoising every service resolved on the way in the
+services map.  `mrg base own` stands for `override.ExtendService(deepClone(base), own)` minus `extends`.
+`none` = error (reference not found / circular reference, i.e. out of fuel). -/
+def applyOne {β : Type} (mrg : β → β → β) : Nat → AL (XSvc β) → String → Option (AL (XSvc β) × β)
+  | 0, _, _ => none
+  | n + 1, m, name =>
+    match find name m with
+    | none => none
+    | some (none, b) => some (m, b)
+    | some (some ref, b) =>
+      match applyOne mrg n m ref with
+      | none => none
+      | some (m1, base) => some (put name (none, mrg base b) m1, mrg base b)
+
+/-- `ApplyExtends`: `for name := range services { merged := applyServiceExtends(name); services[name] = merged }`
+with the services ranged in the order `order` -/
+def applyAll {β : Type} (mrg : β → β → β) (n : Nat) : List String → AL (XSvc β) → Option (AL (XSvc β))
+  | [], m => some m
+  | name :: r, m =>
+    match applyOne mrg n m name with
+    | none => none
+    | some (m1, b) => applyAll mrg n r (put name (none, b) m1)
+
+/-- what a service denotes: its own attributes merged over what the service it extends denotes -/
+def val {β : Type} (mrg : β → β → β) : Nat → AL (XSvc β) → String → Option β
+  | 0, _, _ => none
+  | n + 1, m, name =>
+    match find name m with
+    | none => none
+    | some (none, b) => some b
+    | some (some ref, b) => (val mrg n m ref).map (fun base => mrg base b)
+
 /-! ## package-level state: `versionWarning` -/
 
 /-- `warnObsoleteVersion(file)`: returns the new global and whether a warning was logged -/
